@@ -43,6 +43,7 @@ type Conn struct {
 
 	peer        *Conn // buffered pipe mode: writes are fed to the peer
 	NoLog       bool  // do not keep Written / write events (long streams)
+	BlockWrites bool  // the peer is not draining: Write blocks until the write deadline passes or Close
 	Events      []Event
 	Written     []byte
 	WriteFailAt int // -1 = never; otherwise total offset at which writes fail
@@ -169,7 +170,24 @@ func (c *Conn) Write(p []byte) (int, error) {
 }
 
 func (c *Conn) write(p []byte) (int, error) {
-	c.mu.Lock()
+	for {
+		c.mu.Lock()
+		if c.closed || !c.BlockWrites || (!c.wdl.IsZero() && !time.Now().Before(c.wdl)) {
+			break // c.mu stays held
+		}
+		w, dl := c.wake, c.wdl
+		c.mu.Unlock()
+		if dl.IsZero() {
+			<-w
+			continue
+		}
+		tm := time.NewTimer(time.Until(dl))
+		select {
+		case <-w:
+			tm.Stop()
+		case <-tm.C:
+		}
+	}
 	defer c.mu.Unlock()
 	if c.closed {
 		return 0, net.ErrClosed
@@ -247,6 +265,7 @@ func (c *Conn) SetWriteDeadline(t time.Time) error {
 	defer c.mu.Unlock()
 	c.Events = append(c.Events, Event{Kind: "setwritedeadline", T: time.Now(), DL: t, After: c.after})
 	c.wdl = t
+	c.notify()
 	return nil
 }
 
